@@ -438,7 +438,7 @@ def _dataset_pt():
                       r"|^std::option::Option::<.*>::(map|as_deref_mut|filter)(::<.*>)?$)")
 
 
-def from_dataset(b, op):
+def from_dataset(b, op, _depth=0):
     """does the operand derive from a value stored in the shard map (get/get_mut/entry/...)?"""
     import prov
     if "c" in op:
@@ -447,7 +447,55 @@ def from_dataset(b, op):
     if _DATASET_PT is None:
         _DATASET_PT = _dataset_pt()
     P = prov.operand_origins(b, op, pass_through=_DATASET_PT)
-    return P.has_call(_SHARD_RX)
+    if P.has_call(_SHARD_RX):
+        return True
+    # a reference handed back by an adaptor whose closure captured a stored value
+    # (`index.and_then(|p| list.get_mut(p))`): the result points into what the closure captured
+    if _depth < 3:
+        for r in P.roots:
+            if r[0] != "call":
+                continue
+            t = b.term(r[2])
+            if t["k"] != "call" or not t.get("clos") or "&" not in (b.locals[t["d"]["l"]] or ""):
+                continue
+            for a in t["a"]:
+                if op_is_const(a):
+                    continue
+                for kind, bbi, x in prov.build_defs(b).get(op_place(a)["l"], ()):
+                    if kind == "stmt" and x["r"]["k"] == "agg" and str(x["r"]["a"]).startswith("closure:"):
+                        if any(from_dataset(b, o, _depth + 1) for o in x["r"]["o"] if not op_is_const(o)):
+                            return True
+    return False
+
+
+def dataset_lookup_blocks(b, op, _depth=0):
+    """blocks of the shard-map calls (get / get_mut / entry ...) the operand's stored value was
+    looked up with -- followed through in-place accessors and through adaptors whose closure
+    captured the stored value"""
+    import prov
+    global _DATASET_PT
+    if "c" in op:
+        return set()
+    if _DATASET_PT is None:
+        _DATASET_PT = _dataset_pt()
+    P = prov.operand_origins(b, op, stop_calls=_SHARD_RX, pass_through=_DATASET_PT)
+    out = {r[2] for r in P.roots if r[0] == "call" and _SHARD_RX.search(r[1])}
+    if _depth < 3:
+        for r in P.roots:
+            if r[0] != "call" or _SHARD_RX.search(r[1]):
+                continue
+            t = b.term(r[2])
+            if t["k"] != "call" or not t.get("clos"):
+                continue
+            for a in t["a"]:
+                if op_is_const(a):
+                    continue
+                for kind, bbi, x in prov.build_defs(b).get(op_place(a)["l"], ()):
+                    if kind == "stmt" and x["r"]["k"] == "agg" and str(x["r"]["a"]).startswith("closure:"):
+                        for o in x["r"]["o"]:
+                            if not op_is_const(o):
+                                out |= dataset_lookup_blocks(b, o, _depth + 1)
+    return out
 
 
 def short_callee(f):
